@@ -46,10 +46,11 @@ ERRNOS = {
     'rmdir': ['EACCES'],
 }
 CUTS = ['none', 'one', 'half', 'midline', 'midchar', 'line', 'minus1', 'all']
+CUTS_QUICK = ['none', 'midline', 'midchar', 'line', 'all']
 
 
 def runs(tier):
-    return 48 if tier == 'quick' else 1500
+    return 32 if tier == 'quick' else 1200
 
 
 # ----------------------------------------------------------------------------- scenarios
@@ -70,12 +71,13 @@ def gen_scenario(rng, i):
         files = bm.render_budget(b, rng)
         cfg = base + 'config'
         if variant == 'up-migrate':
-            out = rng.choice([['--format', 'json', '-v'], ['--summary'], [], ['-q', '--format', 'json', '-v']])
+            out = rng.choice([['--format', 'json', '-v'], ['--format', 'json', '-v'], ['--summary'], ['--summary', '-q'], [],
+                              ['-q', '--format', 'json', '-v']])
             argv = ['up', cfg, '--migrate'] + out
             cwd = '.'
         elif variant == 'up-tty':
             tty = {'stdin': True, 'stdout': True, 'answers': [rng.choice(['y', 'Y', ' y '])]}
-            argv = ['up', cfg] + rng.choice([['--format', 'json', '-v'], ['--summary'], []])
+            argv = ['up', cfg] + rng.choice([['--format', 'json', '-v'], ['--format', 'json', '-v'], ['--summary'], []])
             cwd = '.'
         else:
             if base:
@@ -253,8 +255,8 @@ def shape(cls, s0, sf, base_cfg):
             sset = 'rewritten'
         csvs = 'present' if sf.get(cfg + '/merchant_categories.csv') == csv0 and csv0 is not None else (
             'absent' if sf.get(cfg + '/merchant_categories.csv') is None else 'changed')
-        bak = sf.get(cfg + '/merchant_categories.csv.bak')
-        baks = 'absent' if bak is None else ('is-csv' if bak == csv0 else 'other')
+        baks_all = [c for r, c in sf.items() if r.startswith(cfg + '/merchant_categories.csv.bak') and c is not None]
+        baks = 'absent' if not baks_all else ('is-csv' if csv0 in baks_all else 'other')
         rules = sf.get(cfg + '/merchants.rules')
         if rules is None:
             rs = 'absent'
@@ -417,7 +419,7 @@ def fault_plans(trace, rng, tier):
     plans = []
     for k in range(n):
         pend, _ = inflight_pending(trace, k)
-        cuts = CUTS if pend > 0 else ['none']
+        cuts = (CUTS if tier == 'thorough' else CUTS_QUICK) if pend > 0 else ['none']
         for c in cuts:
             plans.append({'kind': 'crash', 'at': k, 'cut': c})
         kind = trace[k]['k']
